@@ -18,8 +18,10 @@ for f in sorted(glob.glob(os.path.join(V, "known_findings", "*.jsonl"))):
 out += ["", "### 12.2 Seeded changes (independent sub-agents; property text + scratch worktree only) and which check catches them", "",
         "Each row is a directory `seeded/<id>/` (patch.diff, demo_test.go, README.md, meta.json). `quick` / `thorough` = exit status of "
         "`VERIF_REPO=<worktree with the patch> ./check <property> <tier>` at the time recorded in meta.json (1 = caught with a VIOLATION line, "
-        "0 = missed, 2 = inconclusive). `history` keeps earlier results: a miss followed by a catch means the check was strengthened.", "",
-        "| id | property | what it needs to manifest | quick | thorough | earlier results |", "|---|---|---|---|---|---|"]
+        "0 = missed, 2 = inconclusive). `history` keeps earlier results: a miss followed by a catch means the check was strengthened. "
+        "`other checks` = quick exit of other properties' checks against the same change (`tools/crosscheck.py`), where the change belongs "
+        "to code another property owns (e.g. a schedule slip aimed at C01 is caught by the C18 check).", "",
+        "| id | property | what it needs to manifest | quick | thorough | earlier results | other checks |", "|---|---|---|---|---|---|---|"]
 for d in sorted(glob.glob(os.path.join(V, "seeded", "*"))):
     mp = os.path.join(d, "meta.json")
     if not os.path.exists(mp):
@@ -30,7 +32,8 @@ for d in sorted(glob.glob(os.path.join(V, "seeded", "*"))):
     q = cr.get("exit") if cr.get("tier", "quick") == "quick" else m.get("quick_exit", "")
     t = m.get("thorough_result", {}).get("exit", "") if isinstance(m.get("thorough_result"), dict) else ""
     hist = ", ".join(str((h or {}).get("exit")) for h in m.get("history", []) if h)
-    out.append("| %s | %s | %s | %s | %s | %s |" % (m["id"], m["property"], need, q, t, hist))
+    cross = ", ".join("%s: %s" % (k, v.get("exit")) for k, v in sorted((m.get("cross") or {}).items()))
+    out.append("| %s | %s | %s | %s | %s | %s | %s |" % (m["id"], m["property"], need, q, t, hist, cross))
 out += ["", "### 12.3 Per-property and per-growth-item implementation notes", "",
         "Growth items (`Gnn`, DESIGN section 5 / BUILDERS.md growth brief) extend the specification beyond the twenty listed properties; each has its own statement at the top of its notes, its own `./check Gnn quick|thorough`, and is not part of MANIFEST.json's property claims.", "",
         "Included verbatim from `notes/Cxx.md` (written by the builder of each check: constants, measured state counts, what is compared, "
